@@ -19,6 +19,7 @@ ERRNO = {
 }
 
 CWD = "/sim"
+FD_BASE = 7000
 
 
 def _oserror(name: str, path=None):
@@ -136,6 +137,9 @@ class SimRaw(io.RawIOBase):
         if self.closed:
             return
         f = self.fs.fault("close", self.role, self.path, 0)
+        fd = getattr(self, "_fd_owned", None)
+        if fd is not None:
+            self.fs.fds.pop(fd, None)
         super().close()
         self.fs.record("close", self.role, self.path, 0, 0)
         if f is not None:
@@ -162,6 +166,8 @@ class SimFS:
         self.seq = 0
         self.open_objs: list = []
         self.passthrough: list = []
+        self.fds: dict = {}          # simulated descriptors (>= FD_BASE) -> SimRaw
+        self.next_fd = FD_BASE
 
     # -- helpers ---------------------------------------------------------------------------
     @staticmethod
@@ -209,6 +215,8 @@ class SimFS:
 
     # -- open ------------------------------------------------------------------------------
     def open(self, file, mode="r", buffering=-1, encoding=None, errors=None, newline=None, closefd=True, opener=None):
+        if isinstance(file, int) and file in self.fds:
+            return self._open_fd(file, mode, buffering, encoding, errors, newline, closefd)
         if not self.is_sim(file):
             self.passthrough.append(repr(file))
             return self._real_open(file, mode, buffering, encoding, errors, newline, closefd, opener)
@@ -276,6 +284,132 @@ class SimFS:
             raw.pos = len(self.files[path])
         return self._wrap(raw, mode, buffering, encoding, errors, newline, binary, want_read, want_write, updating)
 
+    def _open_fd(self, fd, mode, buffering, encoding, errors, newline, closefd):
+        """io.open(fd, ...) / os.fdopen(fd, ...) on a simulated descriptor: wraps the existing raw
+        object; like the real thing it does NOT truncate, whatever the mode says."""
+        raw = self.fds[fd]
+        modes = set(mode)
+        binary = "b" in modes
+        updating = "+" in modes
+        want_read = "r" in modes or updating
+        want_write = bool(modes & set("wax")) or updating
+        if want_write and not raw._w or (want_read and not raw._r and not want_write):
+            raise _oserror("EBADF", raw.path)
+        if "a" in modes:
+            raw._append = True
+        if closefd:
+            raw._fd_owned = fd
+        return self._wrap(raw, mode, buffering, encoding, errors, newline, binary, want_read and raw._r, want_write, updating and raw._r)
+
+    def os_open(self, path, flags, mode=0o777, *, dir_fd=None):
+        import os as _os
+
+        p = self.norm(path)
+        role = self.role_of(p)
+        acc = flags & (_os.O_RDONLY | _os.O_WRONLY | _os.O_RDWR)
+        want_write = acc in (_os.O_WRONLY, _os.O_RDWR)
+        want_read = acc in (_os.O_RDONLY, _os.O_RDWR)
+        f = self.fault("open", role, p, 0)
+        if f is not None:
+            raise _oserror(f["kind"], p)
+        parent = posixpath.dirname(p)
+        desc = "os.open:%#o" % flags
+        if p in self.dirs:
+            if want_write or flags & _os.O_CREAT:
+                self.record("open", role, p, desc, "!EISDIR")
+                raise IsADirectoryError(_errno.EISDIR, os.strerror(_errno.EISDIR), os.fspath(path))
+            self.record("open", role, p, desc, "!EISDIR")
+            raise IsADirectoryError(_errno.EISDIR, os.strerror(_errno.EISDIR), os.fspath(path))
+        if parent not in self.dirs:
+            self.record("open", role, p, desc, "!ENOENT")
+            raise FileNotFoundError(_errno.ENOENT, os.strerror(_errno.ENOENT), os.fspath(path))
+        exists = p in self.files
+        if not exists and not flags & _os.O_CREAT:
+            self.record("open", role, p, desc, "!ENOENT")
+            raise FileNotFoundError(_errno.ENOENT, os.strerror(_errno.ENOENT), os.fspath(path))
+        if exists and flags & _os.O_CREAT and flags & _os.O_EXCL:
+            self.record("open", role, p, desc, "!EEXIST")
+            raise FileExistsError(_errno.EEXIST, os.strerror(_errno.EEXIST), os.fspath(path))
+        if want_read and exists and p in self.unreadable:
+            self.record("open", role, p, desc, "!EACCES")
+            raise PermissionError(_errno.EACCES, os.strerror(_errno.EACCES), os.fspath(path))
+        if (want_write and exists and p in self.ro) or (not exists and parent in self.ro):
+            self.record("open", role, p, desc, "!EACCES")
+            raise PermissionError(_errno.EACCES, os.strerror(_errno.EACCES), os.fspath(path))
+        if not exists:
+            self.files[p] = bytearray()
+            self.mutation("create", role, p)
+        elif flags & _os.O_TRUNC and want_write:
+            self.mutation("truncate", role, p)
+            del self.files[p][:]
+        elif want_write:
+            self.mutation("open-for-write", role, p)
+        self.record("open", role, p, desc, "ok")
+        raw = SimRaw(self, p, role, want_read, want_write, bool(flags & _os.O_APPEND))
+        fd = self.next_fd
+        self.next_fd += 1
+        self.fds[fd] = raw
+        raw._fd_owned = fd
+        return fd
+
+    def os_close(self, fd):
+        raw = self.fds.pop(fd)
+        raw._fd_owned = None
+        raw.close()
+
+    def os_write(self, fd, data):
+        return self.fds[fd].write(data)
+
+    def os_read(self, fd, n):
+        b = bytearray(n)
+        k = self.fds[fd].readinto(b)
+        return bytes(b[:k])
+
+    def os_ftruncate(self, fd, length):
+        raw = self.fds[fd]
+        raw.truncate(length)
+
+    def os_lseek(self, fd, pos, how):
+        return self.fds[fd].seek(pos, how)
+
+    def os_fstat(self, fd):
+        raw = self.fds[fd]
+        return self._stat_result(raw.path)
+
+    def _stat_result(self, p):
+        import stat as _stat
+
+        if p in self.dirs:
+            return os.stat_result((_stat.S_IFDIR | 0o755, 1, 1, 1, 0, 0, 4096, 0, 0, 0))
+        if p in self.files:
+            mode = 0o444 if p in self.ro else 0o644
+            return os.stat_result((_stat.S_IFREG | mode, hash(p) & 0xFFFF, 1, 1, 0, 0, len(self.files[p]), 0, 0, 0))
+        raise FileNotFoundError(_errno.ENOENT, os.strerror(_errno.ENOENT), p)
+
+    def os_stat(self, path, *a, **kw):
+        return self._stat_result(self.norm(path))
+
+    def os_mkdir(self, path, mode=0o777, *a, **kw):
+        p = self.norm(path)
+        if p in self.dirs or p in self.files:
+            raise FileExistsError(_errno.EEXIST, os.strerror(_errno.EEXIST), os.fspath(path))
+        if posixpath.dirname(p) not in self.dirs:
+            raise FileNotFoundError(_errno.ENOENT, os.strerror(_errno.ENOENT), os.fspath(path))
+        if posixpath.dirname(p) in self.ro:
+            raise PermissionError(_errno.EACCES, os.strerror(_errno.EACCES), os.fspath(path))
+        self.dirs.add(p)
+        self.mutation("mkdir", self.role_of(p), p)
+
+    def os_listdir(self, path="."):
+        p = self.norm(path)
+        if p not in self.dirs:
+            raise FileNotFoundError(_errno.ENOENT, os.strerror(_errno.ENOENT), os.fspath(path))
+        out = set()
+        for q in list(self.files) + list(self.dirs):
+            if q != p and posixpath.dirname(q) == p:
+                out.add(posixpath.basename(q))
+        return sorted(out)
+
     def _wrap(self, raw, mode, buffering, encoding, errors, newline, binary, want_read, want_write, updating):
         line_buffering = False
         if buffering == 1 and not binary:
@@ -317,7 +451,7 @@ class SimFS:
     _real_open = staticmethod(io.open)
 
     # -- os-level operations on sim paths (so refactors to atomic writes are modelled) ------
-    def replace(self, src, dst, **kw):
+    def replace(self, src, dst, *a, **kw):
         s, d = self.norm(src), self.norm(dst)
         f = self.fault("rename", self.role_of(d), d, 0)
         if f is not None:
@@ -335,7 +469,7 @@ class SimFS:
         self.mutation("rename-from", self.role_of(s), s)
         self.record("rename", self.role_of(d), d, s, "ok")
 
-    def remove(self, path, **kw):
+    def remove(self, path, *a, **kw):
         p = self.norm(path)
         f = self.fault("unlink", self.role_of(p), p, 0)
         if f is not None:
@@ -348,14 +482,14 @@ class SimFS:
         self.mutation("unlink", self.role_of(p), p)
         self.record("unlink", self.role_of(p), p, 0, "ok")
 
-    def exists(self, path):
+    def exists(self, path, *a, **kw):
         p = self.norm(path)
         return p in self.files or p in self.dirs
 
-    def isfile(self, path):
+    def isfile(self, path, *a, **kw):
         return self.norm(path) in self.files
 
-    def isdir(self, path):
+    def isdir(self, path, *a, **kw):
         return self.norm(path) in self.dirs
 
     def snapshot(self) -> dict:
@@ -384,14 +518,14 @@ class Patches:
         def wrap2(real, sim):
             def f(a, b, *args, **kw):
                 if fs.is_sim(a) or fs.is_sim(b):
-                    return sim(a, b, **kw)
+                    return sim(a, b, *args, **kw)
                 return real(a, b, *args, **kw)
             return f
 
         def wrap1(real, sim):
             def f(a, *args, **kw):
                 if fs.is_sim(a):
-                    return sim(a, **kw)
+                    return sim(a, *args, **kw)
                 return real(a, *args, **kw)
             return f
 
@@ -403,6 +537,52 @@ class Patches:
         self._set(_os.path, "isfile", wrap1(_os.path.isfile, fs.isfile))
         self._set(_os.path, "isdir", wrap1(_os.path.isdir, fs.isdir))
         self._set(_os, "getcwd", lambda: CWD)
+
+        def wrapfd(real, sim):
+            def f(fd, *args, **kw):
+                if isinstance(fd, int) and fd in fs.fds:
+                    return sim(fd, *args, **kw)
+                return real(fd, *args, **kw)
+            return f
+
+        self._set(_os, "open", wrap1(_os.open, fs.os_open))
+        self._set(_os, "close", wrapfd(_os.close, fs.os_close))
+        self._set(_os, "write", wrapfd(_os.write, fs.os_write))
+        self._set(_os, "read", wrapfd(_os.read, fs.os_read))
+        self._set(_os, "ftruncate", wrapfd(_os.ftruncate, fs.os_ftruncate))
+        self._set(_os, "lseek", wrapfd(_os.lseek, fs.os_lseek))
+        self._set(_os, "fsync", wrapfd(_os.fsync, lambda fd: None))
+        self._set(_os, "fdatasync", wrapfd(_os.fdatasync, lambda fd: None))
+        self._set(_os, "fchmod", wrapfd(_os.fchmod, lambda fd, mode: None))
+
+        def sim_stat(real, follow=True):
+            def f(path, *args, **kw):
+                if isinstance(path, int):
+                    if path in fs.fds:
+                        return fs.os_fstat(path)
+                    return real(path, *args, **kw)
+                if fs.is_sim(path):
+                    return fs.os_stat(path)
+                return real(path, *args, **kw)
+            return f
+
+        self._set(_os, "stat", sim_stat(_os.stat))
+        self._set(_os, "lstat", sim_stat(_os.lstat))
+        self._set(_os, "fstat", wrapfd(_os.fstat, fs.os_fstat))
+        self._set(_os, "mkdir", wrap1(_os.mkdir, fs.os_mkdir))
+        self._set(_os, "listdir", lambda path=".": fs.os_listdir(path) if fs.is_sim(path) else _real_listdir(path))
+        _real_listdir = self.saved[-1][2]
+        self._set(_os, "chmod", wrap1(_os.chmod, lambda path, *a, **kw: None))
+        self._set(_os.path, "getsize", wrap1(_os.path.getsize, lambda p: len(fs.files[fs.norm(p)]) if fs.norm(p) in fs.files else fs.os_stat(p).st_size))
+        self._set(_os.path, "abspath", wrap1(_os.path.abspath, lambda p: fs.norm(p)))
+        self._set(_os.path, "realpath", wrap1(_os.path.realpath, lambda p, **kw: fs.norm(p)))
+        try:
+            import fcntl as _fcntl
+
+            self._set(_fcntl, "flock", wrapfd(_fcntl.flock, lambda fd, op: None))
+            self._set(_fcntl, "lockf", wrapfd(_fcntl.lockf, lambda fd, *a, **k: None))
+        except ImportError:
+            pass
 
     def uninstall(self):
         for mod, name, val in reversed(self.saved):
